@@ -201,7 +201,8 @@ GOTRANS = {"gocircuit": "GoCircuit", "gohopener": "GoHOpener", "gohcloser": "GoH
            "gonewrc": "GoNewRC", "gonewrp": "GoNewRP", "gorcwall": "GoRCWall", "gorpsnap": "GoRPSnap", "godbiter": "GoDBIter", "gosdvar": "GoSDVar",
            "gostatsrun": "GoStatsRun", "gostatsfb": "GoStatsFb", "gostatsfactory": "GoStatsFactory", "gostatsfind": "GoStatsFind",
            "goctor": "GoCtor", "goctorset": "GoCtorSet", "gocircmisc": "GoCircMisc", "gomanagerall": "GoManagerAll", "gotchook": "GoTCHook", "goslofactory": "GoSloFactory", "gorollingstore": "GoRollingStore", "goruni": "GoRunI",
-           "gohfaclayers": "GoHFacLayers", "gohfaccloser": "GoHFacCloser", "gohfacopener": "GoHFacOpener", "gohfacopenerset": "GoHFacOpenerSet", "gohfacnow": "GoHFacNow", "gohfacconsec": "GoHFacConsec", "gohfacnever": "GoHFacNever", "gofbi": "GoFbI", "gomgri": "GoMgrI", "gomgriall": "GoMgrIAll"}
+           "gohfaclayers": "GoHFacLayers", "gohfaccloser": "GoHFacCloser", "gohfacopener": "GoHFacOpener", "gohfacopenerset": "GoHFacOpenerSet", "gohfacnow": "GoHFacNow", "gohfacconsec": "GoHFacConsec", "gohfacnever": "GoHFacNever", "gofbi": "GoFbI", "gomgri": "GoMgrI", "gomgriall": "GoMgrIAll",
+           "gofbstatsvar": "GoFbStatsVar", "gorunstatsvar": "GoRunStatsVar", "goslovar": "GoSloVar", "gorpvar": "GoRPVar", "gomanagervar": "GoManagerVar", "goexpvartoval": "GoExpvarToVal", "gofanrunvar": "GoFanRunVar", "gofanfbvar": "GoFanFbVar", "gocircuitvar": "GoCircuitVar"}
 
 def regenerate(name):
     """re-run an extractor on REPO's working tree and (re)write lean/Generated/<file> if it changed.
